@@ -11,6 +11,7 @@ export VERIF_REPO=$WT VERIF_BUILD=/tmp/seedbuild-$$
 mkdir -p $VERIF_BUILD
 for P in "$@"; do
   OUT=$(cd /verif && VERIF_EVIDENCE_DIR=$VERIF_BUILD/evidence VERIF_REPLAY_DIR=$VERIF_BUILD/replays ./check $P $TIER 2>&1); RC=$?
+  [ -n "${KEEP_REPLAYS:-}" ] && mkdir -p "$KEEP_REPLAYS" && cp $VERIF_BUILD/replays/*.json "$KEEP_REPLAYS"/ 2>/dev/null
   if [ $RC -eq 1 ]; then echo "$P DETECTED: $(echo "$OUT" | grep '^violation' | head -2 | tr '\n' ' ' | cut -c1-300)";
   elif [ $RC -eq 0 ]; then echo "$P missed ($(echo "$OUT" | tail -1 | cut -c1-120))";
   else echo "$P ERROR rc=$RC: $(echo "$OUT" | tail -3 | tr '\n' ' ' | cut -c1-400)"; fi
